@@ -364,31 +364,43 @@ def search_counterexample(fc, case, seed=0, tries=3000, budget_s=20):
         old_handler = signal.signal(signal.SIGVTALRM, _on_vtalrm)
     except ValueError:
         old_handler = None
+    result = None
     try:
         for _ in range(tries):
             if time.time() - t0 > budget_s:
                 break
-            rp = None
+            rp = m = None
             try:
-                if old_handler is not None:
-                    signal.setitimer(signal.ITIMER_VIRTUAL, 3.0)
-                m = {p: gen_value(fc.world, t, rng) for p, t in case.params.items()}
-                if case.native_gen is not None:
-                    m = dict(case.native_gen(rng, m), __generated__=True)
-                rp = replay_case(fc, case, m)
+                try:
+                    if old_handler is not None:
+                        signal.setitimer(signal.ITIMER_VIRTUAL, 3.0)
+                    m = {p: gen_value(fc.world, t, rng) for p, t in case.params.items()}
+                    if case.native_gen is not None:
+                        m = dict(case.native_gen(rng, m), __generated__=True)
+                    rp = replay_case(fc, case, m)
+                finally:
+                    if old_handler is not None:
+                        signal.setitimer(signal.ITIMER_VIRTUAL, 0)
             except _TryTimeout:
-                continue
+                continue            # (may also arrive while the timer is being disarmed)
             except Exception:  # pylint: disable=broad-except
                 continue
-            finally:
-                if old_handler is not None:
-                    signal.setitimer(signal.ITIMER_VIRTUAL, 0)
             if rp and rp.get("confirmed"):
                 rp["found_by"] = "bounded native search with the executable contract"
-                return rp, m
+                result = (rp, m)
+                break
+    except _TryTimeout:
+        pass
     finally:
-        if old_handler is not None:
-            signal.signal(signal.SIGVTALRM, old_handler)
+        try:
+            if old_handler is not None:
+                signal.setitimer(signal.ITIMER_VIRTUAL, 0)
+                signal.signal(signal.SIGVTALRM, old_handler)
+        except _TryTimeout:
+            pass
+    return result
+
+
     return None
 
 
